@@ -13,6 +13,9 @@ package main
 import (
 	"fmt"
 	"math/rand"
+	"os"
+	"path/filepath"
+	"sort"
 	"strings"
 
 	"github.com/elastos/Elastos.ELA/common"
@@ -152,6 +155,29 @@ func scenarios(r *evid.Run) []scen {
 	return out
 }
 
+// mathRandImporters lists (information only, never a verdict) the non-test files of the
+// consensus-side packages of the working tree that import math/rand, so a new importer is
+// visible next to the driven entry points.
+func mathRandImporters() []string {
+	var out []string
+	root := evid.RepoRoot()
+	for _, d := range []string{"dpos", "blockchain", "cr", "core", "pow", "auxpow"} {
+		filepath.Walk(filepath.Join(root, d), func(p string, fi os.FileInfo, err error) error {
+			if err != nil || fi.IsDir() || !strings.HasSuffix(p, ".go") || strings.HasSuffix(p, "_test.go") {
+				return nil
+			}
+			b, err := os.ReadFile(p)
+			if err == nil && strings.Contains(string(b), "\"math/rand\"") {
+				rel, _ := filepath.Rel(root, p)
+				out = append(out, rel)
+			}
+			return nil
+		})
+	}
+	sort.Strings(out)
+	return out
+}
+
 func main() {
 	r := evid.Start("C24", "model_checking")
 	scr := evid.Scratch("c24")
@@ -205,6 +231,7 @@ func main() {
 			r.Violate(f.Fail.Signature, f.Fail.What, map[string]interface{}{"scenario": s, "schedule": f.Schedule, "trace": f.Trace})
 		}
 	}
+	info := mathRandImporters()
 	r.Assume = append(r.Assume,
 		"the scheduler is sequentially consistent and preempts only at uses of the process-global math/rand source (the only state shared between the threads)",
 		"entry points enumerated: getCandidateIndexAtRandom (the only consensus function in dpos/state that touches package-level math/rand functions in the working tree is found by the vrand event log; getRandomDposV2Producers uses a local rand.New source)",
@@ -216,6 +243,7 @@ func main() {
 		"schedules":                     execs,
 		"distinct_outcomes":             outcomes.Len(),
 		"per_scenario":                  perScen,
+		"info_math_rand_importers_in_consensus_packages": info,
 		"exhaustive":                    exhaustive,
 		"rule":                          "every interleaving of the harness threads at global-math/rand points within preemption bounds 0,1,2 (and unbounded for the small scenarios); states = distinct (scenario, outcome vector) pairs, transitions = scheduling points executed",
 		"samples":                       samples,
